@@ -1,10 +1,11 @@
 """C03 - invariants are checked around every public operation on a constructed object."""
+import contextvars
 import dataclasses
 from typing import Any, Dict, List, NamedTuple, Optional, Tuple
 
 import icontract
 
-from vfw.hlib import Tag, conc, fresh, note, untraced
+from vfw.hlib import Suspend, Tag, conc, drive, fresh, note, untraced
 from vfw.hspec import B, H, I, bind
 
 CHECK_ON = {"CALL": icontract.InvariantCheckEvent.CALL, "SETATTR": icontract.InvariantCheckEvent.SETATTR,
@@ -23,7 +24,7 @@ SHAPES = ["plain", "slots", "dataclass", "namedtuple", "dbc", "dbc_sub_first", "
 #: operations on a constructed instance; (name, wrapped-by-CALL-invariants?)
 OPS = [("pub", True), ("_prot", False), ("__priv", False), ("__call__", True), ("__len__", True), ("__eq__", True),
        ("prop_get", True), ("prop_set", True), ("prop_del", True), ("cm", False), ("sm", False), ("__repr__", False),
-       ("getattr", False), ("setattr", False), ("construct", False), ("sub_new_method", True)]
+       ("getattr", False), ("setattr", False), ("construct", False), ("sub_new_method", True), ("apub", True)]
 OP_NAMES = [o[0] for o in OPS]
 
 
@@ -72,7 +73,12 @@ class World:
             return icontract.invariant(cond, error=lambda: Tag(("inv", idx)), check_on=CHECK_ON[on])
 
         def members() -> Dict[str, Any]:
+            async def apub(self: Any) -> Any:
+                w.h.log.append(("body", "apub"))
+                await Suspend()
+                return 1
             ns = {
+                "apub": apub,
                 "pub": body("pub", 1),
                 "_prot": body("_prot", 1),
                 "__call__": body("__call__", 1),
@@ -325,6 +331,8 @@ def do_op(w: World, inst: Any, op: str) -> Any:
         return w.construct()
     if op == "sub_new_method":
         return inst.sub_new_method()
+    if op == "apub":
+        return drive(inst.apub())  # an ``async def`` public method, awaited to completion
     raise ValueError(op)
 
 
@@ -363,7 +371,10 @@ def run_ops(shape_i: int, n_inv: int, on0: int, on1: int, where1: int, op0: int,
     if not all(applicable(w, op) for op in ops):
         return True, False
     # construct with all invariants true (the constructor clause is exercised by the op "construct")
-    inst = fresh(w.construct)
+    # (one brand-new context per path - CrossHair iterations share the process context - in which the whole sequence of
+    # operations runs, as successive operations of one thread / task do)
+    ctx = contextvars.Context()
+    inst = ctx.run(w.construct)
     ok = True
     if any(e[0] == "inv-during-construction" for e in h.log):
         ok = False
@@ -374,7 +385,7 @@ def run_ops(shape_i: int, n_inv: int, on0: int, on1: int, where1: int, op0: int,
         del h.log[:]
         start = h.k  # the truth sequence keeps being consumed across the operations
         try:
-            fresh(do_op, w, inst, op)
+            ctx.run(do_op, w, inst, op)
             raised = None
         except Tag as err:
             raised = err.label
